@@ -281,8 +281,21 @@ End SigStatement.
 (** * Executable instance for the correspondence: Z mod r, group = its discrete logarithms *)
 Local Open Scope Z_scope.
 Definition c08_r : Z := 0x73eda753299d7d483339d80809a1d80553bda402fffe5bfeffffffff00000001.
-Definition c08_lagrange (kxs : list Z) (i : Z) : Z := zr_lagrange c08_r kxs i.
-Definition c08_reveal (shares : list (Z * Z)) : Z := zr_reveal c08_r shares.
+(** Inverse by the extended Euclidean algorithm (the differences of revoker points are small, so this
+    takes a few dozen small steps; [zr_inv] of Shamir.v uses a 255-bit Fermat exponentiation).
+    Invariant of [egcd]: a = s0 * x and b = s1 * x modulo r. *)
+Fixpoint egcd (fuel : nat) (a b s0 s1 : Z) : Z :=
+  match fuel with
+  | O => 0
+  | S f => if b =? 0 then s0 else let q := a / b in egcd f b (a - q * b) s1 (s0 - q * s1)
+  end.
+Definition c08_inv (x : Z) : option Z :=
+  let x' := x mod c08_r in
+  if x' =? 0 then None else Some ((egcd 800 x' c08_r 1 0) mod c08_r).
+Definition c08_lagrange (kxs : list Z) (i : Z) : Z :=
+  lagrange Z 1 (zr_sub c08_r) (zr_mul c08_r) c08_inv kxs i.
+Definition c08_reveal (shares : list (Z * Z)) : Z :=
+  reveal Z 0 1 (zr_add c08_r) (zr_sub c08_r) (zr_mul c08_r) c08_inv shares.
 Definition c08_share (secret : Z) (coeffs pts : list Z) : list Z := zr_share c08_r secret coeffs pts.
 (** For one subset of revokers (points [kxs]): the Lagrange coefficient of every member, i.e. the
     coefficient vector of [reveal_in_group] over the free module on the decrypted shares. *)
